@@ -1073,6 +1073,40 @@ pub open spec fn pk_skip(d: Seq<u8>, k: int) -> int
 {
     if k <= 0 { 0 } else { pk_skip(d, k - 1) + d[pk_off(d, k - 1)] as int }
 }
+/// end offset of packet k, and the first colour index it defines (the skip bytes accumulate, the counts do not)
+pub open spec fn pk_end(d: Seq<u8>, k: int) -> int { pk_off(d, k) + 2 + 3 * pk_count(d, pk_off(d, k)) }
+pub open spec fn pk_start(d: Seq<u8>, k: int) -> int { pk_skip(d, k) + d[pk_off(d, k)] as int }
+pub open spec fn old_fits(d: Seq<u8>) -> bool {
+    d.len() >= 2 && forall|k: int| 0 <= k < le_u16(d, 0) ==> #[trigger] pk_end(d, k) <= d.len()
+}
+/// offset of the RGB triple that defines colour i after the first n packets (a later packet overrides an earlier one)
+pub open spec fn old_src(d: Seq<u8>, n: int, i: int) -> Option<int>
+    decreases n,
+{
+    if n <= 0 {
+        None
+    } else if pk_start(d, n - 1) <= i < pk_start(d, n - 1) + pk_count(d, pk_off(d, n - 1)) {
+        Some(pk_off(d, n - 1) + 2 + 3 * (i - pk_start(d, n - 1)))
+    } else {
+        old_src(d, n - 1, i)
+    }
+}
+/// chunk 0x0011 additionally needs every component below 64
+pub open spec fn pk_comp(d: Seq<u8>, k: int, j: int) -> u8 { d[pk_off(d, k) + 2 + j] }
+pub open spec fn old_6bit(d: Seq<u8>) -> bool {
+    forall|k: int, j: int| 0 <= k < le_u16(d, 0) && 0 <= j < 3 * pk_count(d, pk_off(d, k)) ==> #[trigger] pk_comp(d, k, j) < 64
+}
+pub open spec fn old_entry_ok(e: ColorPaletteEntry, d: Seq<u8>, o: int, i: int, six: bool) -> bool {
+    e.id as int == i && e.name is None && e.rgba8@ == (if six {
+        seq![scale6(d[o] as int) as u8, scale6(d[o + 1] as int) as u8, scale6(d[o + 2] as int) as u8, 255u8]
+    } else {
+        seq![d[o], d[o + 1], d[o + 2], 255u8]
+    })
+}
+pub open spec fn old_map_ok(m: Map<u32, ColorPaletteEntry>, d: Seq<u8>, n: int, six: bool) -> bool {
+    &&& forall|i: u32| #[trigger] m.contains_key(i) <==> old_src(d, n, i as int) is Some
+    &&& forall|i: u32| m.contains_key(i) ==> old_entry_ok(#[trigger] m[i], d, old_src(d, n, i as int)->0, i as int, six)
+}
 """},
         {"kind": "fn", "file": "palette", "name": "num_colors", "impl_of": "ColorPalette", "ret": "r"},
         {"kind": "fn", "file": "palette", "name": "color", "impl_of": "ColorPalette", "ret": "r",
@@ -1124,6 +1158,76 @@ pub open spec fn pe_matches(e: ColorPaletteEntry, d: Seq<u8>, o: int, id: int) -
                    ("let name = if", "        assert((flags & 1 == 1) == (flags % 2 == 1)) by (bit_vector);", "before"),
                    ("entries.insert(", "        assert(pe_ok(data@, o));\n        assert(pe_off(data@, k + 1) == pe_end(data@, o));", "before")],
          },
+        {"kind": "fn", "file": "palette", "name": "parse_old_chunk_04", "ret": "r", "rules": ["R1", "R6", "R11"],
+         "body_rewrites": [("for _ in 0..packet_count {", "for _p in it: 0..packet_count {"), ("for id in skip..count {", "for id in it2: skip..count {"),
+                           ("let mut skip = 0;", "let mut skip: u32 = 0;")],
+         "ensures": ("        r is Ok <==> old_fits(data@),\n"
+                     "        r is Ok ==> old_map_ok(r->Ok_0.entries@, data@, le_u16(data@, 0), false),"),
+         "loops": {1: ("        invariant\n"
+                       "            reader.data() == data@, data@.len() >= 2, packet_count as int == le_u16(data@, 0),\n"
+                       "            reader.pos() == pk_off(data@, it.index@ as int), 2 <= reader.pos() <= data@.len(),\n"
+                       "            skip as int == pk_skip(data@, it.index@ as int), 0 <= skip <= 255 * it.index@,\n"
+                       "            forall|k: int| 0 <= k < it.index@ ==> #[trigger] pk_end(data@, k) <= data@.len(),\n"
+                       + ("            forall|k: int, j: int| 0 <= k < it.index@ && 0 <= j < 3 * pk_count(data@, pk_off(data@, k)) ==> #[trigger] pk_comp(data@, k, j) < 64,\n" if False else "") +
+                       "            old_map_ok(entries@, data@, it.index@ as int, false),"),
+                   2: ("            invariant\n"
+                       "                reader.data() == data@, data@.len() >= 2, packet_count as int == le_u16(data@, 0), 0 <= kk < packet_count,\n"
+                       "                o0 == pk_off(data@, kk), 2 <= o0, o0 + 2 <= data@.len(),\n"
+                       "                skip as int == pk_start(data@, kk), count as int == skip + pk_count(data@, o0), 0 <= skip <= 255 * (kk + 1),\n"
+                       "                pk_end(data@, kk) == o0 + 2 + 3 * (count - skip),\n"
+                       "                reader.pos() == o0 + 2 + 3 * it2.index@, reader.pos() <= data@.len(),\n"
+                       "                forall|k: int| 0 <= k < kk ==> #[trigger] pk_end(data@, k) <= data@.len(),\n"
+                       + ("                forall|k: int, j: int| 0 <= k < kk && 0 <= j < 3 * pk_count(data@, pk_off(data@, k)) ==> #[trigger] pk_comp(data@, k, j) < 64,\n"
+                          "                forall|j: int| 0 <= j < 3 * it2.index@ ==> #[trigger] pk_comp(data@, kk, j) < 64,\n" if False else "") +
+                       "                forall|i: u32| #[trigger] entries@.contains_key(i) <==> ((skip <= i && (i as int) < skip + it2.index@) || old_src(data@, kk, i as int) is Some),\n"
+                       "                forall|i: u32| entries@.contains_key(i) ==> old_entry_ok(#[trigger] entries@[i], data@,\n"
+                       "                    if skip <= i && (i as int) < skip + it2.index@ { o0 + 2 + 3 * (i - skip) } else { old_src(data@, kk, i as int)->0 }, i as int, false),")},
+         "hints": [("skip += reader.byte()? as u32;",
+                    "        let ghost kk = it.index@ as int;\n        let ghost o0 = reader.pos();\n"
+                    "        assert(pk_end(data@, kk) >= o0 + 5);", "before"),
+                   ("let red =", "            let ghost jj = it2.index@ as int;\n            assert(id as int == skip + jj);\n"
+                    "            assert(pk_comp(data@, kk, 3 * jj) == data@[reader.pos()] && pk_comp(data@, kk, 3 * jj + 1) == data@[reader.pos() + 1] && pk_comp(data@, kk, 3 * jj + 2) == data@[reader.pos() + 2]);\n"
+                    "            assert(0 <= 3 * jj && 3 * jj + 2 < 3 * pk_count(data@, pk_off(data@, kk)));", "before")],
+         "loop_ends": {1: ("        proof {\n"
+                           "            assert(pk_off(data@, kk + 1) == pk_end(data@, kk));\n"
+                           "            assert(pk_skip(data@, kk + 1) == pk_start(data@, kk));\n"
+                           "            assert forall|i: u32| #[trigger] entries@.contains_key(i) <==> old_src(data@, kk + 1, i as int) is Some by {}\n"
+                           "        }")}},
+        {"kind": "fn", "file": "palette", "name": "parse_old_chunk_11", "ret": "r", "rules": ["R1", "R6", "R11"],
+         "body_rewrites": [("for _ in 0..packet_count {", "for _p in it: 0..packet_count {"), ("for id in skip..count {", "for id in it2: skip..count {"),
+                           ("let mut skip = 0;", "let mut skip: u32 = 0;")],
+         "ensures": ("        r is Ok <==> old_fits(data@) && old_6bit(data@),\n"
+                     "        r is Ok ==> old_map_ok(r->Ok_0.entries@, data@, le_u16(data@, 0), true),"),
+         "loops": {1: ("        invariant\n"
+                       "            reader.data() == data@, data@.len() >= 2, packet_count as int == le_u16(data@, 0),\n"
+                       "            reader.pos() == pk_off(data@, it.index@ as int), 2 <= reader.pos() <= data@.len(),\n"
+                       "            skip as int == pk_skip(data@, it.index@ as int), 0 <= skip <= 255 * it.index@,\n"
+                       "            forall|k: int| 0 <= k < it.index@ ==> #[trigger] pk_end(data@, k) <= data@.len(),\n"
+                       + ("            forall|k: int, j: int| 0 <= k < it.index@ && 0 <= j < 3 * pk_count(data@, pk_off(data@, k)) ==> #[trigger] pk_comp(data@, k, j) < 64,\n" if True else "") +
+                       "            old_map_ok(entries@, data@, it.index@ as int, true),"),
+                   2: ("            invariant\n"
+                       "                reader.data() == data@, data@.len() >= 2, packet_count as int == le_u16(data@, 0), 0 <= kk < packet_count,\n"
+                       "                o0 == pk_off(data@, kk), 2 <= o0, o0 + 2 <= data@.len(),\n"
+                       "                skip as int == pk_start(data@, kk), count as int == skip + pk_count(data@, o0), 0 <= skip <= 255 * (kk + 1),\n"
+                       "                pk_end(data@, kk) == o0 + 2 + 3 * (count - skip),\n"
+                       "                reader.pos() == o0 + 2 + 3 * it2.index@, reader.pos() <= data@.len(),\n"
+                       "                forall|k: int| 0 <= k < kk ==> #[trigger] pk_end(data@, k) <= data@.len(),\n"
+                       + ("                forall|k: int, j: int| 0 <= k < kk && 0 <= j < 3 * pk_count(data@, pk_off(data@, k)) ==> #[trigger] pk_comp(data@, k, j) < 64,\n"
+                          "                forall|j: int| 0 <= j < 3 * it2.index@ ==> #[trigger] pk_comp(data@, kk, j) < 64,\n" if True else "") +
+                       "                forall|i: u32| #[trigger] entries@.contains_key(i) <==> ((skip <= i && (i as int) < skip + it2.index@) || old_src(data@, kk, i as int) is Some),\n"
+                       "                forall|i: u32| entries@.contains_key(i) ==> old_entry_ok(#[trigger] entries@[i], data@,\n"
+                       "                    if skip <= i && (i as int) < skip + it2.index@ { o0 + 2 + 3 * (i - skip) } else { old_src(data@, kk, i as int)->0 }, i as int, true),")},
+         "hints": [("skip += reader.byte()? as u32;",
+                    "        let ghost kk = it.index@ as int;\n        let ghost o0 = reader.pos();\n"
+                    "        assert(pk_end(data@, kk) >= o0 + 5);", "before"),
+                   ("let red =", "            let ghost jj = it2.index@ as int;\n            assert(id as int == skip + jj);\n"
+                    "            assert(pk_comp(data@, kk, 3 * jj) == data@[reader.pos()] && pk_comp(data@, kk, 3 * jj + 1) == data@[reader.pos() + 1] && pk_comp(data@, kk, 3 * jj + 2) == data@[reader.pos() + 2]);\n"
+                    "            assert(0 <= 3 * jj && 3 * jj + 2 < 3 * pk_count(data@, pk_off(data@, kk)));", "before")],
+         "loop_ends": {1: ("        proof {\n"
+                           "            assert(pk_off(data@, kk + 1) == pk_end(data@, kk));\n"
+                           "            assert(pk_skip(data@, kk + 1) == pk_start(data@, kk));\n"
+                           "            assert forall|i: u32| #[trigger] entries@.contains_key(i) <==> old_src(data@, kk + 1, i as int) is Some by {}\n"
+                           "        }")}},
     ],
 }
 
